@@ -526,3 +526,76 @@ Proof.
   pose proof (chain_sound p r o Hc text texts rest (mkC pos (concat texts ++ rest) []) F Hi eq_refl Ht Ho HF) as E.
   simpl in E. rewrite app_nil_r in E. exact E.
 Qed.
+
+(* ------------------------------------------------------------------ text in front of the timestamp *)
+Lemma win_dead_sound r o w tl s F :
+  win_dead r o w tl = true -> conc w tl (c_rem s) -> org_ok (c_pos s) o -> (S (length w) <= F)%nat ->
+  cm cst F r s accept = NoMatch.
+Proof.
+  unfold win_dead. intros H C Ho HF.
+  set (a0 := mkS 0 o w tl []) in *.
+  assert (HR : R (c_pos s) (c_caps s) a0 s) by (unfold a0; repeat split; simpl; auto).
+  pose proof (sim_m (c_pos s) (c_caps s) sst cst (R (c_pos s) (c_caps s)) _ _ HF r a0 s s_accept accept HR) as S.
+  assert (Hk : krel (c_pos s) (c_caps s) sst cst (R (c_pos s) (c_caps s)) s_accept accept).
+  { intros a' s' HR'. simpl. eauto. }
+  specialize (S Hk). destruct (sm sst (Datatypes.S (length w)) r a0 s_accept); try discriminate. exact S.
+Qed.
+
+Lemma sym_inb_refl b : sym_inb (SyB b) b = true.
+Proof. simpl. apply N.eqb_refl. Qed.
+
+Lemma dead_at_sound r o b1 rest F pos :
+  dead_at r o b1 (hd_opt rest) = true -> org_ok pos o -> (length (b1 :: rest) < F)%nat ->
+  match_at F r pos (b1 :: rest) = NoMatch.
+Proof.
+  unfold dead_at, match_at. intros H Ho HF. simpl in HF.
+  destruct (win_dead r o [SyB b1] TAny) eqn:E1.
+  - apply (win_dead_sound r o [SyB b1] TAny); simpl; auto; try lia.
+    constructor; [apply sym_inb_refl|constructor].
+  - destruct rest as [|b2 rest]; simpl in H.
+    + apply (win_dead_sound r o [SyB b1] TEnd); simpl; auto; try lia.
+      constructor; [apply sym_inb_refl|constructor].
+    + apply (win_dead_sound r o [SyB b1; SyB b2] TAny); simpl; auto; try (simpl in HF; lia).
+      constructor; [apply sym_inb_refl|]. constructor; [apply sym_inb_refl|constructor].
+Qed.
+
+(* THEOREM: a prefix every offset of which is dead is skipped by the leftmost search *)
+Theorem pre_ok_search r : forall pre o pos body F,
+  pre_ok r o pre (hd_opt body) = true -> org_ok pos o -> (length (pre ++ body) < F)%nat ->
+  search_from F r pos (pre ++ body) = search_from F r (pos + N.of_nat (length pre)) body.
+Proof.
+  induction pre as [|b1 l IH]; intros o pos body F H Ho HF.
+  - simpl. rewrite N.add_0_r. reflexivity.
+  - cbn [pre_ok] in H.
+    destruct (dead_at r o b1 (match l with b2 :: _ => Some b2 | [] => hd_opt body end)) eqn:E; [|discriminate].
+    assert (E' : dead_at r o b1 (hd_opt (l ++ body)) = true) by (destruct l; exact E).
+    pose proof (dead_at_sound r o b1 (l ++ body) F pos E' Ho HF) as Hm.
+    change ((b1 :: l) ++ body) with (b1 :: (l ++ body)). cbn [search_from]. rewrite Hm.
+    rewrite (IH ONz (pos + 1) body F H); [|simpl; lia|simpl in HF; lia].
+    f_equal. simpl length. lia.
+Qed.
+
+
+(* a stated class of prefixes: bytes that are dead on their own at every offset *)
+Lemma dead_bytes_spec r b : In b (dead_bytes r) ->
+  win_dead r OAbs [SyB b] TAny = true /\ win_dead r ONz [SyB b] TAny = true.
+Proof.
+  unfold dead_bytes. intros H. apply filter_In in H as [_ H].
+  destruct (win_dead r OAbs [SyB b] TAny); [split; auto|discriminate].
+Qed.
+Lemma dead_set_pre r (D : list N) :
+  (forall b, In b D -> win_dead r OAbs [SyB b] TAny = true /\ win_dead r ONz [SyB b] TAny = true) ->
+  forall pre o nxt, (o = OAbs \/ o = ONz) ->
+  (forall b, In b pre -> In b D) -> pre_ok r o pre nxt = true.
+Proof.
+  intros HD. induction pre as [|b l IH]; intros o nxt Ho H; [reflexivity|].
+  change (pre_ok r o (b :: l) nxt) with
+    (if dead_at r o b (match l with b2 :: _ => Some b2 | [] => nxt end) then pre_ok r ONz l nxt else false).
+  destruct (HD b (H b (or_introl eq_refl))) as [E1 E2].
+  assert (Hd : dead_at r o b (match l with b2 :: _ => Some b2 | [] => nxt end) = true).
+  { unfold dead_at. destruct Ho as [-> | ->]; [rewrite E1|rewrite E2]; reflexivity. }
+  rewrite Hd. apply IH; auto. intros b' Hb'. apply H. right; auto.
+Qed.
+Theorem dead_bytes_pre r pre nxt :
+  (forall b, In b pre -> In b (dead_bytes r)) -> pre_ok r OAbs pre nxt = true.
+Proof. intros H. apply (dead_set_pre r (dead_bytes r) (dead_bytes_spec r)); auto. Qed.
